@@ -293,6 +293,9 @@ func unmarshalObject(dec *msgpack.Decoder, atys map[string]cty.Type, path cty.Pa
 		if !exists {
 			return cty.DynamicVal, path.NewErrorf("unsupported attribute")
 		}
+		if _, dup := vals[key]; dup {
+			return cty.DynamicVal, path.NewErrorf("duplicate attribute")
+		}
 
 		val, err := unmarshal(dec, aty, path)
 		if err != nil {
